@@ -108,7 +108,9 @@ Definition w_tables : tables := mkT
   [((10, true), 6); ((10, false), 5); ((2, true), 1); ((5, true), 3)]
   [(1, [(1, w_pl); (2, w_pl)]); (2, [(1, w_pl)]); (3, [(3, w_pl)])]
   (* header signatures over hash 0: signature k is the seal of key k *)
-  [((0, 1), 1); ((0, 2), 2)].
+  [((0, 1), 1); ((0, 2), 2)]
+  (* proof 99: a scalar out of range, ProofToHash panics on it *)
+  [99].
 Definition w_O := table_oracles w_tables.
 Definition w_seedH : header := mkH 92 5 5 1 (Some (mkCD 92 1 7 0 0 0 None 0 0 10)) None None 0.
 Definition w_parent : header := mkH 99 2 3 1 None None None 0.
@@ -130,6 +132,10 @@ Definition w_cd_zero : consdata := mkCD 100 1 8 15 32 0 (Some 2) 5 10 10.
 
 (* (d) the honest consensus data and votes under a header signature of key 2 *)
 Definition w_hdr_unsealed : header := mkH 100 0 2 1 (Some w_cd_ok) (Some w_uv_ok) None 2.
+
+(* (e) malformed proofs: the proposer credential is proof 99 / validator 1's precommit carries proof 99 *)
+Definition w_cd_crash : consdata := mkCD 100 1 8 99 31 2 (Some 1) 5 10 10.
+Definition w_uv_crash : uconvals := mkUV 1 [mkVote 0 4 12; mkVote 1 3 99] (Some 1) [] None.
 
 Lemma w_bls_sound : forall pubs pl s, o_bls w_O pubs pl s = Some true -> forall k, In k pubs -> signed_t w_tables k pl.
 Proof. apply table_bls_sound. Qed.
@@ -162,6 +168,12 @@ Lemma w_unsealed_accepted :
   verify_side w_O asis w_cp [] w_seedH w_lb w_seedH w_lb w_hdr_unsealed (Some w_parent) = Accept
   /\ verify_side w_O fixed w_cp [] w_seedH w_lb w_seedH w_lb w_hdr_unsealed (Some w_parent) = EInvalidSealer.
 Proof. split; vm_compute; reflexivity. Qed.
+
+Lemma w_malformed_crash :
+  verify_side w_O fixed w_cp [] w_seedH w_lb w_seedH w_lb (w_hdr w_cd_crash w_uv_ok) (Some w_parent) = EPanic /\
+  verify_side w_O fixed w_cp [] w_seedH w_lb w_seedH w_lb (w_hdr w_cd_ok w_uv_crash) (Some w_parent) = EPanic /\
+  o_vrf_crash w_O (cd_proof w_cd_crash) = true.
+Proof. repeat split; vm_compute; reflexivity. Qed.
 
 (* ---- the full statement and its refutations --------------------------------------- *)
 
